@@ -40,6 +40,14 @@ func (in *Interp) binop(op token.Token, xt types.Type, x, y value, yt types.Type
 			return ts.Arith(OpMul, xv, yv)
 		case token.QUO, token.REM:
 			in.panicIf(ts.Eq(yv, ts.BV(yv.w, 0)), "integer divide by zero")
+			if yv.IsConst() && !xv.IsConst() && yv.val != 0 {
+				if q, r, ok := in.divByConst(xv, yv, signed); ok {
+					if op == token.QUO {
+						return q
+					}
+					return r
+				}
+			}
 			var o Op
 			switch {
 			case op == token.QUO && signed:
@@ -93,6 +101,13 @@ func (in *Interp) binop(op token.Token, xt types.Type, x, y value, yt types.Type
 			return ts.Eq(xv, yv)
 		case token.NEQ:
 			return ts.Ne(xv, yv)
+		}
+		if signed && xv.w == 64 {
+			if r := in.linearSignCmp(op, xv, yv); r != nil {
+				return r
+			}
+		}
+		switch op {
 		case token.LSS:
 			if signed {
 				return ts.Cmp(OpSlt, xv, yv)
@@ -359,4 +374,238 @@ func (in *Interp) convert(from, to types.Type, x value) value {
 		return x // bool to bool
 	}
 	panic(unsupported(fmt.Sprintf("conversion %s -> %s", from, to)))
+}
+
+// divByConst encodes x / c and x % c for a constant c that is not a power of two by witness
+// variables q, r with x = q*c + r and the range/sign side conditions that make (q, r) unique.
+// A constant multiplier is far cheaper for the bit-blasting back ends than a divider circuit.
+func (in *Interp) divByConst(x, c *Term, signed bool) (q, r *Term, ok bool) {
+	ts := in.ts
+	w := x.w
+	if w < 16 {
+		return nil, nil, false
+	}
+	cv := c.val
+	if signed {
+		sc := sext(cv, w)
+		if sc <= 1 || sc&(sc-1) == 0 {
+			return nil, nil, false // negative, 1 or power of two: the generic encoding is fine
+		}
+	} else if cv <= 1 || cv&(cv-1) == 0 {
+		return nil, nil, false
+	}
+	key := fmt.Sprintf("div:%d:%d:%v", x.id, cv, signed)
+	if p, found := in.ghost[key].([2]*Term); found {
+		return p[0], p[1], true
+	}
+	if x.IsConst() {
+		if signed {
+			return ts.Arith(OpSDiv, x, c), ts.Arith(OpSRem, x, c), true
+		}
+		return ts.Arith(OpUDiv, x, c), ts.Arith(OpURem, x, c), true
+	}
+	if x.op == OpIte {
+		q1, r1, ok1 := in.divByConst(x.a[1], c, signed)
+		q2, r2, ok2 := in.divByConst(x.a[2], c, signed)
+		if ok1 && ok2 {
+			q, r = ts.Ite(x.a[0], q1, q2), ts.Ite(x.a[0], r1, r2)
+			in.ghost[key] = [2]*Term{q, r}
+			return q, r, true
+		}
+	}
+	if signed {
+		if q, r, ok := in.divLinear(x, c); ok {
+			in.ghost[key] = [2]*Term{q, r}
+			return q, r, true
+		}
+	}
+	// range shortcut: 0 <= x < c (confirmed by the solver) gives q = 0, r = x
+	{
+		var inR *Term
+		if signed {
+			inR = ts.And(ts.Cmp(OpSle, ts.BV(w, 0), x), ts.Cmp(OpSlt, x, c))
+		} else {
+			inR = ts.Cmp(OpUlt, x, c)
+		}
+		if res, _ := in.ctx.Check(ts.Not(inR), in.ctx.branchTO, nil); res == Unsat {
+			in.ghost[key] = [2]*Term{ts.BV(w, 0), x}
+			return ts.BV(w, 0), x, true
+		}
+	}
+	q = in.fresh("divq", w)
+	r = in.fresh("divr", w)
+	zero := ts.BV(w, 0)
+	eq := ts.Eq(x, ts.Arith(OpAdd, ts.Arith(OpMul, q, c), r))
+	var side *Term
+	if signed {
+		maxv := int64(mask(w) >> 1)
+		minv := -maxv - 1
+		sc := sext(cv, w)
+		qmax := ts.BV(w, uint64(maxv/sc))
+		qmin := ts.BV(w, uint64(minv/sc))
+		xneg := ts.Cmp(OpSlt, x, zero)
+		side = ts.And(ts.Cmp(OpSle, qmin, q), ts.Cmp(OpSle, q, qmax))
+		side = ts.And(side, ts.Ite(xneg,
+			ts.And(ts.And(ts.Cmp(OpSlt, ts.BV(w, uint64(-sc)), r), ts.Cmp(OpSle, r, zero)), ts.Cmp(OpSle, q, zero)),
+			ts.And(ts.And(ts.Cmp(OpSle, zero, r), ts.Cmp(OpSlt, r, c)), ts.Cmp(OpSle, zero, q))))
+	} else {
+		qmax := ts.BV(w, mask(w)/cv)
+		side = ts.And(ts.Cmp(OpUle, q, qmax), ts.Cmp(OpUlt, r, c))
+		// q*c + r must not wrap: q*c <= x
+		side = ts.And(side, ts.Cmp(OpUle, ts.Arith(OpMul, q, c), x))
+	}
+	in.ctx.AddPC(ts.And(eq, side))
+	in.ghost[key] = [2]*Term{q, r}
+	in.P.noteModelName("x / c, x % c for constant c encoded by witnesses q, r with x = q*c + r (unique by range and sign side conditions)")
+	return q, r, true
+}
+
+// linearForm matches x = s*c + k (or s*c) syntactically for the given constant c.
+func linearForm(x, c *Term) (s, k *Term, ok bool) {
+	isMulC := func(t *Term) (*Term, bool) {
+		if t.op == OpMul && t.a[1] == c {
+			return t.a[0], true
+		}
+		if t.op == OpMul && t.a[0] == c {
+			return t.a[1], true
+		}
+		return nil, false
+	}
+	if s, ok := isMulC(x); ok {
+		return s, nil, true
+	}
+	if x.op == OpAdd {
+		if s, ok := isMulC(x.a[0]); ok {
+			return s, x.a[1], true
+		}
+		if s, ok := isMulC(x.a[1]); ok {
+			return s, x.a[0], true
+		}
+	}
+	return nil, nil, false
+}
+
+// divLinear computes x/c and x%c exactly when x is syntactically s*c + k and the solver
+// confirms, under the path condition, that s*c does not overflow and |k| < c.
+func (in *Interp) divLinear(x, c *Term) (q, r *Term, ok bool) {
+	ts := in.ts
+	s, k, ok := linearForm(x, c)
+	if !ok {
+		return nil, nil, false
+	}
+	w := x.w
+	sc := sext(c.val, w)
+	maxv := int64(mask(w) >> 1)
+	// leave room for k: |s| <= max/c - 1
+	lim := maxv/sc - 1
+	inRange := ts.And(ts.Cmp(OpSle, ts.BV(w, uint64(-lim)), s), ts.Cmp(OpSle, s, ts.BV(w, uint64(lim))))
+	if k != nil {
+		inRange = ts.And(inRange, ts.And(ts.Cmp(OpSlt, ts.BV(w, uint64(-sc)), k), ts.Cmp(OpSlt, k, c)))
+	}
+	if res, _ := in.ctx.Check(ts.Not(inRange), in.ctx.branchTO, nil); res != Unsat {
+		return nil, nil, false
+	}
+	in.P.noteModelName("(s*c + k) / c and % c computed exactly after the solver confirmed the no-overflow range of s and |k| < c")
+	zero := ts.BV(w, 0)
+	if k == nil {
+		return s, zero, true
+	}
+	one := ts.BV(w, 1)
+	kpos := ts.Cmp(OpSlt, zero, k)
+	kneg := ts.Cmp(OpSlt, k, zero)
+	szero := ts.Eq(s, zero)
+	// sign of x = s*c + k with |k| < c and no overflow: decided by s, then by k
+	xpos := ts.Or(ts.Cmp(OpSlt, zero, s), ts.And(szero, kpos))
+	xneg := ts.Or(ts.Cmp(OpSlt, s, zero), ts.And(szero, kneg))
+	down := ts.And(xpos, kneg) // q = s-1, r = k+c
+	up := ts.And(xneg, kpos)   // q = s+1, r = k-c
+	q = ts.Ite(down, ts.Arith(OpSub, s, one), ts.Ite(up, ts.Arith(OpAdd, s, one), s))
+	r = ts.Ite(down, ts.Arith(OpAdd, k, c), ts.Ite(up, ts.Arith(OpSub, k, c), k))
+	return q, r, true
+}
+
+// linearSignCmp rewrites a signed comparison of x = s*c + k with zero into conditions on s and
+// k (no multiplier), after the solver confirmed the no-overflow range of s and |k| < c.
+func (in *Interp) linearSignCmp(op token.Token, x, y *Term) *Term {
+	ts := in.ts
+	flip := false
+	if x.IsConst() && x.val == 0 && !y.IsConst() {
+		x, y = y, x
+		flip = true
+	}
+	if !(y.IsConst() && y.val == 0) || x.IsConst() {
+		return nil
+	}
+	var c *Term
+	find := func(t *Term) {
+		if t.op == OpMul && t.a[1].IsConst() && sext(t.a[1].val, t.w) >= 1000 {
+			c = t.a[1]
+		}
+	}
+	find(x)
+	if c == nil && x.op == OpAdd {
+		find(x.a[0])
+		if c == nil {
+			find(x.a[1])
+		}
+	}
+	if c == nil {
+		return nil
+	}
+	key := fmt.Sprintf("sign:%d", x.id)
+	var neg, pos *Term
+	if p, ok := in.ghost[key].([2]*Term); ok {
+		neg, pos = p[0], p[1]
+	} else {
+		s, k, ok := linearForm(x, c)
+		if !ok {
+			return nil
+		}
+		w := x.w
+		sc := sext(c.val, w)
+		lim := int64(mask(w)>>1)/sc - 1
+		inRange := ts.And(ts.Cmp(OpSle, ts.BV(w, uint64(-lim)), s), ts.Cmp(OpSle, s, ts.BV(w, uint64(lim))))
+		zero := ts.BV(w, 0)
+		kpos, kneg := ts.False, ts.False
+		if k != nil {
+			inRange = ts.And(inRange, ts.And(ts.Cmp(OpSlt, ts.BV(w, uint64(-sc)), k), ts.Cmp(OpSlt, k, c)))
+			kpos, kneg = ts.Cmp(OpSlt, zero, k), ts.Cmp(OpSlt, k, zero)
+		}
+		if res, _ := in.ctx.Check(ts.Not(inRange), in.ctx.branchTO, nil); res != Unsat {
+			in.ghost[key] = [2]*Term{nil, nil}
+			return nil
+		}
+		szero := ts.Eq(s, zero)
+		pos = ts.Or(ts.Cmp(OpSlt, zero, s), ts.And(szero, kpos))
+		neg = ts.Or(ts.Cmp(OpSlt, s, zero), ts.And(szero, kneg))
+		in.ghost[key] = [2]*Term{neg, pos}
+		in.P.noteModelName("sign of s*c + k decided from s and k after the solver confirmed the no-overflow range")
+	}
+	if neg == nil {
+		return nil
+	}
+	if flip {
+		// 0 op x  ==  x op' 0
+		switch op {
+		case token.LSS:
+			op = token.GTR
+		case token.LEQ:
+			op = token.GEQ
+		case token.GTR:
+			op = token.LSS
+		case token.GEQ:
+			op = token.LEQ
+		}
+	}
+	switch op {
+	case token.LSS:
+		return neg
+	case token.GEQ:
+		return ts.Not(neg)
+	case token.GTR:
+		return pos
+	case token.LEQ:
+		return ts.Not(pos)
+	}
+	return nil
 }
